@@ -71,6 +71,10 @@ class PumlParser(DiagramParser):
             content = puml_file.read().strip()
 
         relevant_content = self._remove_content_outside_start_and_end_tags(content)
+        # indentation and trailing blanks are not part of a declaration or dependency
+        relevant_content = "\n".join(
+            line.strip() for line in relevant_content.split("\n")
+        )
 
         modules = self._retrieve_modules_declared_outside_dependencies(relevant_content)
         dependencies = self._retrieve_dependencies_and_inline_modules(relevant_content)
